@@ -118,3 +118,33 @@ pub fn c18_mint(req: &J) -> J {
         Err(_) => json!({"panicked": true, "msg": crate::last_panic()}),
     }
 }
+
+
+/// C09: a DoscMint transaction whose data is (difficulty, empty proof bytes). `Proof::from_bytes` accepts the empty string.
+pub fn c09_empty_proof(_req: &J) -> J {
+    let r = catch_unwind(AssertUnwindSafe(|| {
+        let db = Database::new(InMemoryCas::default());
+        let mut st: UnsealedState<InMemoryCas> = genesis(NetID::Custom02, 0, 0).realize(&db);
+        let cid = CoinID { txhash: TxHash(HashVal([5u8; 32])), index: 0 };
+        vh::insert_coin(&mut st, cid, CoinDataHeight { coin_data: CoinData { covhash: always_true_covhash(), value: CoinValue(1000), denom: Denom::Mel, additional_data: Default::default() }, height: 0.into() });
+        let mut sealed = st.seal(None);
+        for _ in 0..2 {
+            sealed = sealed.next_unsealed().seal(None);
+        }
+        let mut state = sealed.next_unsealed();
+        let tx = Transaction {
+            kind: TxKind::DoscMint,
+            inputs: vec![cid],
+            outputs: vec![CoinData { covhash: always_true_covhash(), value: CoinValue(1000), denom: Denom::Mel, additional_data: Default::default() }],
+            fee: CoinValue(0),
+            covenants: vec![melvm::Covenant::always_true().to_bytes()],
+            data: stdcode::serialize(&(3u32, Vec::<u8>::new())).unwrap().into(),
+            sigs: vec![],
+        };
+        format!("{:?}", state.apply_tx(&tx).map(|_| ()))
+    }));
+    match r {
+        Ok(res) => json!({"panicked": false, "result": res}),
+        Err(_) => json!({"panicked": true, "msg": crate::last_panic()}),
+    }
+}
